@@ -40,7 +40,7 @@ def main():
     caught = [q for q, c in res["checks"].items() if any(l.startswith("VIOLATION") for l in c["lines"])]
     meta = {
         "property": prop,
-        "source": "written by an independent sub-agent (second wave) given only the property record, the list of changes already tried and a scratch worktree",
+        "source": "written by an independent sub-agent (" + os.environ.get("SEED_WAVE", "second") + " wave) given only the property record, the list of changes already tried and a scratch worktree",
         "needs_to_manifest": next((l for l in lines if "need" in l.lower() or "manifest" in l.lower()), "")[:300],
         "confirmed": {"demo_exit_on_unchanged_tree": res.get("demo_clean_rc"), "demo_exit_with_patch": res.get("demo_patched_rc"),
                       "baseline_suite_with_patch": res.get("tests"),
